@@ -11,6 +11,14 @@ NOTE = ("Trusted: CrossHair 0.0.110 + z3, the overlay venv, the environment stub
         "isinstance shim), the harness oracles under /verif/vf. Grammars are a fixed corpus (classes cannot be symbolic); all bounds are in evidence.assumptions.")
 
 CLAIMED = {
+    "C01": dict(
+        text="create -> map -> mutate/crossover pipelines of all five representations and all four deciders run on the real code with every random "
+             "draw and every gene a free z3 integer; an independent well-typedness oracle (typing/dataclasses introspection only) is asserted on every "
+             "produced program and any exception other than the library's own error types is a violation. Each (fixture, representation, decider, "
+             "operation) obligation's path tree is exhausted: one path per program shape, leaf values symbolic. Bounds: fixed grammar corpus, depth <= 3 "
+             "(4 thorough), gene lengths <= 6, one or two operations, draw/gene-read fuel for the unbounded deciders and the stack mapper.",
+        design_ref="DESIGN.md section 4 (C01)",
+    ),
     "C18": dict(
         text="For every primitive of RandomSource, the three genotype-backed sources and the deciders' bounded integer draw, the real code is executed "
              "symbolically with the underlying uniform draw / the genes as free z3 integers (bounds from a fixed set incl. negative, equal, >1000 and "
